@@ -46,22 +46,48 @@ class C18(core.Check):
     assumptions = ['rows are compared as tuples of numbers; NumPy dtype/broadcast corner cases outside equal-length assignment are not part of the property']
 
     # ------------------------------------------------------------------ op generation
-    def gen_ops(self, n, malformed=False):
+    def gen_ops(self, n, malformed=False, drop=None):
+        """mostly-valid operations: indices are drawn inside an estimate of the current length"""
         r = self.rng
         ops = []
+        ln = 0
         for _ in range(n):
-            k = r.choice(['append'] * 6 + ['append_multiple', 'delete', 'get', 'slice', 'slice', 'flush', 'setslice', 'set', 'last', 'past'])
-            rng = 9 if malformed else 6
+            k = r.choice(['append'] * 6 + ['append_multiple', 'append_multiple', 'delete', 'delete', 'get', 'slice', 'slice',
+                                            'flush', 'setslice', 'set', 'last', 'past'])
+            wild = malformed and r.random() < 0.3
+            lo, hi = (-ln - 3, ln + 3) if wild else (-ln, ln - 1)
+
+            def idx():
+                return r.randint(lo, hi) if lo <= hi else 0
             if k == 'append':
                 ops.append(('append',))
+                ln += 1
             elif k == 'append_multiple':
-                ops.append(('append_multiple', r.randint(0 if malformed else 1, 4)))
-            elif k in ('delete', 'get', 'set', 'past'):
-                ops.append((k, r.randint(-rng, rng)))
+                m = r.randint(0 if malformed else 1, 4)
+                ops.append(('append_multiple', m))
+                ln += m
+            elif k == 'delete':
+                if ln == 0 and not wild:
+                    continue
+                ops.append((k, idx()))
+                ln = max(ln - 1, 0)
+            elif k in ('get', 'set', 'past'):
+                if ln == 0 and not wild:
+                    continue
+                ops.append((k, idx() if k != 'past' else r.randint(0 if not wild else -3, max(ln - 1, 0) + (3 if wild else 0))))
             elif k in ('slice', 'setslice'):
-                ops.append((k, r.choice([None] + list(range(-rng, rng + 1))), r.choice([None] + list(range(-rng, rng + 1)))))
+                b = [None] + list(range(-ln - 2, ln + 3))
+                ops.append((k, r.choice(b), r.choice(b)))
+            elif k == 'flush':
+                if r.random() < 0.3:
+                    ops.append((k,))
+                    ln = 0
             else:
+                if ln == 0 and not wild:
+                    continue
                 ops.append((k,))
+            if drop and ln >= drop:
+                ln -= int(drop / 2)
         return ops
 
     # ------------------------------------------------------------------ run on the real class, producing lines + replies
@@ -214,7 +240,7 @@ class C18(core.Check):
             bucket = r.choice([1, 2, 3, 3, 4, 5])
             drop = r.choice([None, None, None, 4, 6, 7])
             malformed = r.random() < 0.25
-            ops = self.gen_ops(r.randint(1, 16 if not self.thorough else 40), malformed=malformed)
+            ops = self.gen_ops(r.randint(1, 16 if not self.thorough else 40), malformed=malformed, drop=drop)
             lines, replies, _ = self.run_real(bucket, 2, drop, ops, against_list=False)
             metas.append((len(all_lines), len(lines), bucket, drop, ops))
             all_lines += lines
@@ -260,13 +286,21 @@ class C18(core.Check):
         for t in range(self.budget(2000, 60000, boost)):
             bucket = r.choice([1, 2, 3, 5, 10])
             drop = r.choice([None, None, None, 4, 6, 7, 10])
-            seqs.append((bucket, drop, self.gen_ops(r.randint(1, 30 if not self.thorough else 80))))
+            seqs.append((bucket, drop, self.gen_ops(r.randint(1, 30 if not self.thorough else 80), drop=drop)))
         for (bucket, drop, ops) in seqs:
             lines, replies, verdict = self.run_real(bucket, 2, drop, ops, against_list=True)
             kinds = [l.split()[1] for l in lines]
             res.seen((bucket, drop, tuple(lines)), 'delete' in kinds or len(kinds) > bucket)
             res.count('seq-len:' + str(min(len(ops), 10) // 5 * 5))
             if verdict is not None:
+                what0 = verdict[0]
+
+                def still(cand, bucket=bucket, drop=drop, what0=what0):
+                    v = self.run_real(bucket, 2, drop, cand, against_list=True)[2]
+                    return v is not None and v[0] == what0
+                if len(res.failures) < 3:
+                    ops = core.shrink_list(ops, still)
+                    verdict = self.run_real(bucket, 2, drop, ops, against_list=True)[2]
                 what, op, got, want = verdict
                 uses_drop = drop is not None
                 res.fail(**{'class': f'dynarray/{what}' + ('+drop_at' if uses_drop else ''),
